@@ -19,7 +19,7 @@ func init() {
 	register(&Rule{
 		ID: "R11.5", Props: []string{"C11", "C20", "C12"}, Engine: "who-may-compare (SSA operands)",
 		Text:  "set algebra orders and compares elements by their full identity: in the Set, SetBuilder and setHeap functions of pkg/digest every string comparison (<, ==, strings.Compare, …) with an operand computed from a Digest uses the whole value (Digest.String(), the value field, or GetKey(KeyWithInstance)) – never a projection that forgets the instance name, the size or the function",
-		Floor: 4, MustExist: true, Run: runR115,
+		Floor: 3, MustExist: true, Run: runR115,
 	})
 	register(&Rule{
 		ID: "R17.2", Props: []string{"C17", "C11"}, Engine: "flow (field roles from the constructor)",
@@ -110,11 +110,44 @@ func runR115(c *Ctx) {
 		}
 		return false, false, ""
 	}
-	for _, tf := range c.pkgFuncs(digestRel) {
-		if !inScope(tf) {
-			continue
+	// in scope: the set / builder / heap functions and every function of the
+	// package they call or hand on as a value (comparators, helpers)
+	scope := map[*ssa.Function]bool{}
+	var order []*ssa.Function
+	var addScope func(f *ssa.Function)
+	addScope = func(f *ssa.Function) {
+		if f == nil || scope[f] || len(f.Blocks) == 0 || f.Pkg == nil || f.Pkg.Pkg.Path() != modPath+"/"+digestRel {
+			return
 		}
-		withAnon(tf, func(f *ssa.Function) {
+		if t := topFunc(f); t.Signature.Recv() != nil {
+			rt := t.Signature.Recv().Type()
+			if p, ok := rt.(*types.Pointer); ok {
+				rt = p.Elem()
+			}
+			if types.Identical(rt, digT) {
+				return // Digest's own methods define the identity; they are not set algebra
+			}
+		}
+		scope[f] = true
+		order = append(order, f)
+		for _, a := range f.AnonFuncs {
+			addScope(a)
+		}
+		allInstrs(f, func(ins ssa.Instruction) {
+			for _, op := range ins.Operands(nil) {
+				if g, ok := (*op).(*ssa.Function); ok {
+					addScope(g)
+				}
+			}
+		})
+	}
+	for _, tf := range c.pkgFuncs(digestRel) {
+		if inScope(tf) {
+			addScope(tf)
+		}
+	}
+	for _, f := range order {
+		func() {
 			name := FuncName(f)
 			allInstrs(f, func(ins ssa.Instruction) {
 				var ops []ssa.Value
@@ -152,7 +185,7 @@ func runR115(c *Ctx) {
 				}
 				c.Check(bad == "", name, "full-identity", c.Pos(ins.Pos()), "elements are compared by their whole value", "set elements are compared by "+bad+", a projection of the digest: two different digests (for instance the same hash under two instance names) are merged, de-duplicated or ordered as if they were one, so differences, intersections and unions lose elements")
 			})
-		})
+		}()
 	}
 }
 
@@ -715,7 +748,7 @@ func init() {
 	register(&Rule{
 		ID: "R16.6", Props: []string{"C16", "C09"}, Engine: "algebraic shape (SSA operands)",
 		Text: "a stream opened at an offset ends at the end of the object: for every io.NewSectionReader(r, off, n) in package buffer, off + n equals the buffer's size field – off is the constant 0 and n the size, or n is the size minus that very off",
-		Floor: 4, MustExist: true, Run: runR166,
+		Floor: 1, MustExist: true, Run: runR166,
 	})
 }
 
@@ -735,13 +768,19 @@ func runR165(c *Ctx) {
 		rf, _ := loadedField(ops[0].Call.Value)
 		isR := func(v ssa.Value) bool {
 			f, base := loadedField(v)
-			return f == rf && isReceiverValue(fn, base)
+			if f != rf {
+				return false
+			}
+			if ins, ok := v.(ssa.Instruction); ok && ins.Parent() != nil {
+				return isReceiverValue(ins.Parent(), base)
+			}
+			return isReceiverValue(fn, base)
 		}
 		bad := ""
 		var badPos token.Pos
 		nClose := 0
 		// 0: current reader open; 1: closed, no replacement installed yet
-		explorePaths(&pathSpec{Fn: fn, Init: 0,
+		explorePaths(&pathSpec{Fn: fn, Init: 0, Inline: inlineOwnMethods,
 			Step: func(st int, ev pathEvent) int {
 				if ev.Ins == nil {
 					return st
@@ -1199,28 +1238,58 @@ func init() {
 }
 
 func runR206(c *Ctx) {
-	fn := c.Method(digestRel, "Function", "NewDigest")
-	if fn == nil {
+	top := c.Method(digestRel, "Function", "NewDigest")
+	if top == nil {
 		c.Broken("digest.Function.NewDigest not found")
 		return
 	}
-	name := FuncName(fn)
-	var hash ssa.Value
-	for _, p := range fn.Params {
-		if bt, ok := p.Type().Underlying().(*types.Basic); ok && bt.Kind() == types.String {
-			hash = p
-		}
-	}
-	var next *ssa.Next
-	allInstrs(fn, func(ins ssa.Instruction) {
-		if n, ok := ins.(*ssa.Next); ok && n.IsString {
-			if r, ok := n.Iter.(*ssa.Range); ok && r.X == hash {
-				next = n
+	name := FuncName(top)
+	stringParam := func(f *ssa.Function) ssa.Value {
+		for _, p := range f.Params {
+			if bt, ok := p.Type().Underlying().(*types.Basic); ok && bt.Kind() == types.String {
+				return p
 			}
 		}
-	})
+		return nil
+	}
+	findLoop := func(f *ssa.Function, str ssa.Value) *ssa.Next {
+		var next *ssa.Next
+		allInstrs(f, func(ins ssa.Instruction) {
+			if n, ok := ins.(*ssa.Next); ok && n.IsString {
+				if r, ok := n.Iter.(*ssa.Range); ok && r.X == str {
+					next = n
+				}
+			}
+		})
+		return next
+	}
+	// the loop is in NewDigest itself, or in a validation helper that is
+	// handed the hash and whose nil result guards the construction
+	fn := top
+	hash := stringParam(top)
+	next := findLoop(top, hash)
+	var helperCall *ssa.Call
+	if next == nil && hash != nil {
+		allInstrs(top, func(ins ssa.Instruction) {
+			cl, ok := ins.(*ssa.Call)
+			if !ok || next != nil {
+				return
+			}
+			callee := cl.Call.StaticCallee()
+			if callee == nil || len(callee.Blocks) == 0 || callee.Pkg != top.Pkg || errIndex(callee) < 0 {
+				return
+			}
+			for k, a := range cl.Call.Args {
+				if a == hash && k < len(callee.Params) {
+					if n := findLoop(callee, callee.Params[k]); n != nil {
+						next, fn, helperCall = n, callee, cl
+					}
+				}
+			}
+		})
+	}
 	if next == nil {
-		c.Fail(name, "alphabet", c.Pos(fn.Pos()), "NewDigest no longer examines the hash character by character: nothing establishes that only 0-9 and a-f are accepted (hex decoders accept A-F as well, giving one object several distinct digests)")
+		c.Fail(name, "alphabet", c.Pos(top.Pos()), "NewDigest no longer examines the hash character by character: nothing establishes that only 0-9 and a-f are accepted (hex decoders accept A-F as well, giving one object several distinct digests)")
 		return
 	}
 	loopPos := c.Pos(fn.Pos())
@@ -1247,62 +1316,37 @@ func runR206(c *Ctx) {
 		c.Fail(name, "alphabet", loopPos, "the loop over the hash does not look at the characters")
 		return
 	}
-	// the construction must come after the loop: newDigestUnchecked is reached only through the loop's exit
-	// (checked by R20.1's call-site discipline; here: the loop header dominates every success return)
-	for _, r := range returnsOf(fn) {
-		if isNilConst(r.Results[len(r.Results)-1]) && !hdr.Dominates(r.Block()) {
+	// every digest is returned only after the loop (or after the helper that contains it said nil)
+	for _, r := range returnsOf(top) {
+		if !isNilConst(returnedValue(r, len(r.Results)-1)) {
+			continue
+		}
+		guarded := false
+		if helperCall == nil {
+			guarded = hdr.Dominates(r.Block())
+		} else {
+			guarded = dominatedByErrNil(r.Block(), helperCall)
+		}
+		if !guarded {
 			c.Fail(name, "alphabet", c.Pos(r.Pos()), "a digest is returned on a path that bypasses the per-character validation")
 			return
 		}
 	}
-	evalCmp := func(cond ssa.Value, r int64) (bool, bool) {
-		neg := false
-		for {
-			if u, ok := cond.(*ssa.UnOp); ok && u.Op == token.NOT {
-				cond, neg = u.X, !neg
-				continue
+	if helperCall != nil {
+		for _, r := range returnsOf(fn) {
+			if isNilConst(returnedValue(r, errIndex(fn))) && !hdr.Dominates(r.Block()) {
+				c.Fail(name, "alphabet", c.Pos(r.Pos()), "the validation helper can report success without having examined the characters")
+				return
 			}
-			break
 		}
-		bo, ok := cond.(*ssa.BinOp)
-		if !ok {
-			return false, false
-		}
-		val := func(v ssa.Value) (int64, bool) {
-			v = stripConv(v)
-			if cv, isConv := v.(*ssa.Convert); isConv {
-				v = cv.X
-			}
-			if v == ch {
-				return r, true
-			}
-			return constInt(v)
-		}
-		x, okx := val(bo.X)
-		y, oky := val(bo.Y)
-		if !okx || !oky {
-			return false, false
-		}
-		var res bool
-		switch bo.Op {
-		case token.LSS:
-			res = x < y
-		case token.LEQ:
-			res = x <= y
-		case token.GTR:
-			res = x > y
-		case token.GEQ:
-			res = x >= y
-		case token.EQL:
-			res = x == y
-		case token.NEQ:
-			res = x != y
-		default:
-			return false, false
-		}
-		return res != neg, true
 	}
-	// domain: every ASCII code point plus representatives of the rest
+	// abstract evaluation of the loop body for one code point: values are
+	// computed along the path (phis from the edge taken)
+	type aval struct {
+		i     int64
+		b     bool
+		known bool
+	}
 	var dom []int64
 	for r := int64(0); r < 0x100; r++ {
 		dom = append(dom, r)
@@ -1311,34 +1355,115 @@ func runR206(c *Ctx) {
 	var wrong []string
 	undecided := ""
 	for _, r := range dom {
-		b := body
+		env := map[ssa.Value]aval{ch: {i: r, known: true}}
+		var eval func(v ssa.Value, depth int) aval
+		eval = func(v ssa.Value, depth int) aval {
+			if a, ok := env[v]; ok {
+				return a
+			}
+			if depth > 12 {
+				return aval{}
+			}
+			switch x := v.(type) {
+			case *ssa.Const:
+				if k, ok := constInt(x); ok {
+					return aval{i: k, known: true}
+				}
+				if x.Value != nil && x.Value.Kind() == constant.Bool {
+					return aval{b: constant.BoolVal(x.Value), known: true}
+				}
+			case *ssa.Convert:
+				return eval(x.X, depth+1)
+			case *ssa.ChangeType:
+				return eval(x.X, depth+1)
+			case *ssa.UnOp:
+				if x.Op == token.NOT {
+					a := eval(x.X, depth+1)
+					return aval{b: !a.b, known: a.known}
+				}
+			case *ssa.BinOp:
+				a, b := eval(x.X, depth+1), eval(x.Y, depth+1)
+				if !a.known || !b.known {
+					return aval{}
+				}
+				switch x.Op {
+				case token.LSS:
+					return aval{b: a.i < b.i, known: true}
+				case token.LEQ:
+					return aval{b: a.i <= b.i, known: true}
+				case token.GTR:
+					return aval{b: a.i > b.i, known: true}
+				case token.GEQ:
+					return aval{b: a.i >= b.i, known: true}
+				case token.EQL:
+					if isBoolType(x.X) {
+						return aval{b: a.b == b.b, known: true}
+					}
+					return aval{b: a.i == b.i, known: true}
+				case token.NEQ:
+					if isBoolType(x.X) {
+						return aval{b: a.b != b.b, known: true}
+					}
+					return aval{b: a.i != b.i, known: true}
+				case token.SUB:
+					return aval{i: a.i - b.i, known: true}
+				case token.ADD:
+					return aval{i: a.i + b.i, known: true}
+				}
+			}
+			return aval{}
+		}
+		b, prev := body, hdr
 		accepted, decided := false, false
-		for steps := 0; steps < 64 && !decided; steps++ {
+		for steps := 0; steps < 128 && !decided; steps++ {
 			if b == hdr {
 				accepted, decided = true, true
 				break
 			}
+			// phis of b from the edge prev -> b
+			idx := -1
+			for k, p := range b.Preds {
+				if p == prev {
+					idx = k
+				}
+			}
+			for _, ins := range b.Instrs {
+				phi, ok := ins.(*ssa.Phi)
+				if !ok {
+					break
+				}
+				if idx >= 0 {
+					env[phi] = eval(phi.Edges[idx], 0)
+				}
+			}
 			last := b.Instrs[len(b.Instrs)-1]
 			switch t := last.(type) {
 			case *ssa.If:
-				v, ok := evalCmp(t.Cond, r)
-				if !ok {
+				v := eval(t.Cond, 0)
+				if !v.known {
 					undecided = c.Pos(t.Cond.Pos())
+					if undecided == "?" {
+						undecided = loopPos
+					}
 					decided = true
 					break
 				}
-				if v {
+				prev = b
+				if v.b {
 					b = b.Succs[0]
 				} else {
 					b = b.Succs[1]
 				}
 			case *ssa.Jump:
-				b = b.Succs[0]
+				prev, b = b, b.Succs[0]
 			case *ssa.Return:
-				accepted, decided = isNilConst(t.Results[len(t.Results)-1]), true
+				accepted, decided = isNilConst(returnedValue(t, len(t.Results)-1)), true
 			default:
-				undecided, decided = c.Pos(last.Pos()), true
+				undecided, decided = loopPos, true
 			}
+		}
+		if !decided && undecided == "" {
+			undecided = loopPos
 		}
 		if undecided != "" {
 			break
